@@ -80,9 +80,10 @@ func H_C03_PubkeyParse() {
 		h_realise_nonresidue(pub[1:33])
 	}
 	ok := q.ParsePubkey(pub)
-	if !ok && !zzverif.Symbolic() && L == 65 && h_below_p(pub[1:33]) {
+	if !ok && !zzverif.Symbolic() && L == 65 {
 		// native realiser: under the engine "on the curve" is a relation of uninterpreted products; realise it with the
-		// next abscissa that really has a root, keeping the prefix and the parity of Y chosen by the model
+		// next abscissa that really has a root, keeping the prefix and the parity of Y chosen by the model. (An abscissa
+		// of p or more stays one: the root is that of its residue, so the bytes alias a real point.)
 		alt := append([]byte{}, pub...)
 		for k := 0; k < 64; k++ {
 			var f Field
